@@ -104,15 +104,32 @@ def case(fam, geometry, rep):
                 thr = lo[ax] + rng.uniform(0.2, 0.8) * (hi[ax] - lo[ax])
                 masks.append(X[:, ax] >= thr if rng.integers(0, 2) else X[:, ax] <= thr)
             masks.append(rng.uniform(size=len(X)) < 0.7)
+            # designed masks: all points of some faces, and of further faces everything but one node (corner or mid node) - these
+            # tell "all points of the face" from "its corners" / "most of its points" for every cell type
+            allfaces = np.asarray(built[(False, False)].mesh.cells_faces)
+            for k in range(2 if run.tier == "quick" else 5):
+                pick = rng.uniform(size=len(allfaces)) < 0.35
+                if not pick.any():
+                    pick[int(rng.integers(0, len(allfaces)))] = True
+                md = np.zeros(len(X), bool)
+                md[allfaces[pick].ravel()] = True
+                for f in allfaces[~pick]:
+                    j = int(rng.integers(0, len(f))) if k % 2 else len(f) - 1  # leave one node out: any node / the last (a mid node of quadratic faces)
+                    keep = np.delete(f, j)
+                    if not md[f[j]]:
+                        md[keep] = True
+                masks.append(md)
+                masks.append(np.where(md)[0])  # the same selection as an array of point indices
             for only_surface in (True, False):
                 universe = built[(only_surface, False)]
-                for m in masks:
+                for m_arg in masks:
+                    m = np.isin(np.arange(len(X)), m_arg) if np.asarray(m_arg).dtype != bool else m_arg
                     sel = set(np.arange(len(X))[m].tolist())
                     expect = set(f for f in faces_as_sets(universe) if f <= sel)
                     if not expect:
                         run.skip("boundary.mask", "mask selects no face")
                         continue
-                    rbm = R(mesh, only_surface=only_surface, mask=m)
+                    rbm = R(mesh, only_surface=only_surface, mask=m_arg)
                     got = faces_as_sets(rbm)
                     if got == expect and len(rbm.mesh.cells) == sum(1 for f in universe.mesh.cells_faces
                                                                      if frozenset(int(i) for i in f) <= sel):
@@ -145,6 +162,7 @@ def _required():
         req += ["%s:only_surface=True:closure" % fam, "%s:only_surface=False:cell-closure" % fam, fam + ":mask",
                 fam + ":cells_faces", fam + ":surface-selection"]
     req += ["quad:ensure_3d", "quad8:ensure_3d", "quad9:ensure_3d"]
+    req += ["%s:only_surface=%s:face-area-vector" % (f, s_) for f in ("quad", "hexahedron") for s_ in (True, False)]
     return req
 
 
